@@ -903,7 +903,12 @@ func Centroid(geometry Geometry) (s2.Point, bool) {
 	case GeometryTypePath:
 		return s2.Point{Vector: geometry.Polyline().Centroid().Normalize()}, true
 	case GeometryTypeArea:
-		if geometry.(Area).Len() == 1 {
+		if geometry.(Area).Len() == 0 {
+			return s2.Point{}, false
+		} else if geometry.(Area).Len() == 1 {
+			if geometry.(Area).Polygon(0).NumLoops() == 0 {
+				return s2.Point{}, false
+			}
 			return s2.Point{Vector: geometry.(Area).Polygon(0).Loop(0).Centroid().Normalize()}, true
 		} else {
 			query := s2.NewConvexHullQuery()
